@@ -14,6 +14,10 @@ C03 validates the layout itself, this check only reads it):
   up/down land on row -/+1 at the largest candidate column <= the preferred column (else the
   smallest) or return the key with the state unchanged when there is no such row; home/end go to
   the first/last position of the cursor's row; in clip mode only the row change is asserted.
+Signals are observed through a plain function listener plus 0..3 generated listeners connected in the
+other ways urwid.connect_signal documents (callback kind, weak_args incl. alive-but-falsy objects,
+user_args incl. falsy values, deprecated user_arg, handler return value): each listener must see the
+same change/postchange chain and receive the documented arguments.
 Readings deliberately taken on the weak side (see comments at the place of use):
   * 'tab' with allow_tab: any 1..8 spaces (the docs say "1-8 spaces", not how many);
   * the preferred column after a click is either the clicked column or the cursor column;
@@ -27,6 +31,7 @@ Readings deliberately taken on the weak side (see comments at the place of use):
 """
 from __future__ import annotations
 
+import functools
 import re
 import warnings
 
@@ -52,7 +57,14 @@ RULE = (
     "preserve_significance; the options passed as the modern keywords, as the deprecated but still accepted "
     "decimalSeparator=/preserveSignificance= keywords, or positionally) "
     "with keys from digits, letters, '-', '.', ',', characters whose .upper() is in "
-    "the alphabet, navigation and clicks. Every step is compared with the reference editor / display map / "
+    "the alphabet, navigation and clicks. Both kinds of case also draw 0..3 extra 'change'/'postchange' listeners "
+    "besides the plain function every case connects: callback kind (function, bound method, callable object, "
+    "functools.partial) x weak_args (0..2 live objects: plain, truthy widgets/walkers, and alive-but-falsy ones - "
+    "len()==0 or bool()==False objects, empty Pile/Columns/list walker/ListBox) x user_args (not passed, empty, or "
+    "1..2 values from 0, '', [], False, 0.0, 1, 'x', [0], True; optionally the caller changes its list after "
+    "connecting) x the deprecated user_arg (not passed or one of the same values) x handler return value; every "
+    "listener must record the same change/postchange chain as the plain one and be called with the arguments "
+    "connect_signal() documents. Every step is compared with the reference editor / display map / "
     "signal chain. Non-trivial (edit): caption+text need >= 2 display rows or contain a double-width/combining "
     "character, and the history has an up/down move or inserts/deletes while such a character is present; "
     "(numeric): the history has a key outside the ASCII alphabet of the widget or a '-' and >= 3 keys."
@@ -66,6 +78,10 @@ ASSUMPTIONS = [
     "keys are delivered as str (urwid's input layer always produces str keys), one code point per printable key",
     "the widget is rendered with focus=True between keys (an Edit only receives keys while in focus)",
     "the width is constant within one case",
+    "listeners are connected once, before the first key, with urwid.connect_signal as documented (weak_args / "
+    "user_args as keywords, user_arg positionally); the harness keeps every weak argument alive for the whole case, "
+    "so 'the handler is dropped when a weak argument dies' never applies; delivery order between listeners is not "
+    "asserted",
 ]
 
 NAV = ["left", "right", "up", "down", "home", "end"]
@@ -230,6 +246,144 @@ def _fmt(v):
     return repr(v)
 
 
+# ---------------------------------------------------------------------------------------------
+# listeners: the ways a 'change' / 'postchange' handler can be connected (urwid.connect_signal docs)
+
+
+class _Plain:
+    """an ordinary weak-referenceable object"""
+
+
+class _Len0:
+    """alive, but empty: len() == 0, so bool() is False (like an empty container widget or list walker)"""
+
+    def __len__(self):
+        return 0
+
+
+class _BoolFalse:
+    def __bool__(self):
+        return False
+
+
+class _EqAnything:
+    """compares equal to everything, None included"""
+
+    def __eq__(self, other):
+        return True
+
+    def __ne__(self, other):
+        return False
+
+    __hash__ = object.__hash__
+
+
+# every target is weak-referenceable and is kept alive by the harness for the whole case
+WEAK_TARGETS = {
+    "object": _Plain,
+    "len0-object": _Len0,
+    "bool-false-object": _BoolFalse,
+    "eq-anything-object": _EqAnything,
+    "Text": lambda: urwid.Text("result"),
+    "Pile-1": lambda: urwid.Pile([urwid.Text("result")]),
+    "Pile-empty": lambda: urwid.Pile([]),
+    "Columns-empty": lambda: urwid.Columns([]),
+    "walker-1": lambda: urwid.SimpleFocusListWalker([urwid.Text("result")]),
+    "walker-empty": lambda: urwid.SimpleFocusListWalker([]),
+    "ListBox-empty": lambda: urwid.ListBox(urwid.SimpleFocusListWalker([])),
+}
+# values for user_args / the deprecated user_arg: ordinary ones and the falsy-but-valid ones
+ARG_VALUES = [0, "", [], False, 0.0, 1, "x", [0], True]
+CALLBACK_KINDS = ["function", "bound-method", "callable-object", "partial"]
+
+
+def _listener_label(desc):
+    parts = [desc["callback"]]
+    if desc["weak"]:
+        parts.append(f"weak_args={desc['weak']!r}")
+    if desc["user_args"] is not None:
+        parts.append(f"user_args={desc['user_args']!r}" + (" (list changed by the caller afterwards)"
+                                                            if desc.get("mutate_after") else ""))
+    if desc["user_arg"] is not None:
+        parts.append(f"user_arg={desc['user_arg']!r}")
+    parts.append(f"returning {desc.get('returns')!r}")
+    return ", ".join(parts)
+
+
+def _same_value(a, b):
+    return type(a) is type(b) and a == b
+
+
+def connect_listener(edit, desc, log, keep):
+    """Connect one handler to 'change' and one to 'postchange' as described by ``desc`` (JSON):
+    callback kind, weak_args (names from WEAK_TARGETS), user_args (None = not passed), deprecated
+    user_arg (None = not passed, as documented), the value the handler returns.  The handler checks
+    the arguments it is called with against the connect_signal() docs - weak_args (the objects
+    themselves), then user_args as passed at connect time, then what the widget emits (widget, text),
+    then user_arg - and appends (signal, text argument, edit_text at that moment) to ``log``."""
+    weak = [WEAK_TARGETS[name]() for name in desc["weak"]]
+    uargs = desc["user_args"]
+    uarg = desc["user_arg"]
+    ret = desc.get("returns")
+    nw, nu = len(weak), len(uargs or [])
+    label = _listener_label(desc)
+
+    def receive(kind, args):
+        ok = (
+            len(args) == nw + nu + 2 + (uarg is not None)
+            and all(a is b for a, b in zip(args[:nw], weak))
+            and all(_same_value(a, b) for a, b in zip(args[nw : nw + nu], uargs or []))
+            and (uarg is None or _same_value(args[-1], uarg))
+        )
+        if not ok:
+            raise Violation("signal-args", f"'{kind}' handler connected as {label} was called with {args!r}; expected "
+                            f"the {nw} weak argument(s), then {list(uargs or [])!r}, then (widget, text)"
+                            f"{', then ' + repr(uarg) if uarg is not None else ''}")
+        log.append((kind, args[nw + nu + 1], edit.edit_text))
+        return ret
+
+    class Holder:
+        def change(self, *args):
+            return receive("change", args)
+
+        def postchange(self, *args):
+            return receive("postchange", args)
+
+        def __call__(self, *args):
+            return receive(self.kind, args)
+
+    for kind in ("change", "postchange"):
+        if desc["callback"] == "function":
+            def cb(*args, kind=kind):
+                return receive(kind, args)
+        elif desc["callback"] == "bound-method":
+            h = Holder()
+            cb = getattr(h, kind)
+        elif desc["callback"] == "callable-object":
+            cb = Holder()
+            cb.kind = kind
+        elif desc["callback"] == "partial":
+            cb = functools.partial(lambda k, *args: receive(k, args), kind)
+        else:
+            raise AssertionError(desc["callback"])
+        kwargs = {}
+        if weak:
+            kwargs["weak_args"] = list(weak)
+        passed = None
+        if uargs is not None:
+            passed = list(uargs)
+            kwargs["user_args"] = passed
+        if uarg is not None:
+            urwid.connect_signal(edit, kind, cb, uarg, **kwargs)
+        else:
+            urwid.connect_signal(edit, kind, cb, **kwargs)
+        if passed is not None and desc.get("mutate_after"):
+            # the caller goes on using its list: the handler still gets "the user_args passed at connect time"
+            passed.insert(0, "added later")
+            passed.append("added later")
+    keep.append(weak)
+
+
 def drive(edit, spec: Spec, case, mode, mask):
     w = case["width"]
     size = (w,)
@@ -238,6 +392,14 @@ def drive(edit, spec: Spec, case, mode, mask):
     log = []
     urwid.connect_signal(edit, "change", lambda _w, new: log.append(("change", new, edit.edit_text)))
     urwid.connect_signal(edit, "postchange", lambda _w, old: log.append(("postchange", old, edit.edit_text)))
+    # further listeners, each connected in one of the ways connect_signal() documents; every one of them
+    # must be told about every modification exactly like the plain listener above
+    keep = []  # strong references: the weak arguments stay alive for the whole case
+    logs = [("plain function", log)]
+    for desc in case.get("listeners") or []:
+        llog = []
+        connect_listener(edit, desc, llog, keep)
+        logs.append((_listener_label(desc), llog))
 
     def displayed(text):
         return caption + (mask * len(text) if mask is not None else text)
@@ -303,6 +465,19 @@ def drive(edit, spec: Spec, case, mode, mask):
         return M, cur
 
     def check_signals(i, op, t0, t1):
+        for label, llog in logs:
+            check_chain(i, op, t0, t1, llog, label)
+
+    def check_chain(i, op, t0, t1, log, label):
+        try:
+            check_chain_1(i, op, t0, t1, log)
+        except Violation as v:
+            if label == "plain function":
+                raise
+            raise Violation(v.clause, f"{v.message} [listener connected as {label}; the plain listener saw "
+                            f"{logs[0][1]!r}]") from None
+
+    def check_chain_1(i, op, t0, t1, log):
         cur = t0
         k = 0
         while k < len(log):
@@ -336,7 +511,8 @@ def drive(edit, spec: Spec, case, mode, mask):
     for i, op in enumerate(case["ops"]):
         t0, p0 = edit.edit_text, edit.edit_pos
         bs = bounds(t0, mode)
-        del log[:]
+        for _label, llog in logs:
+            del llog[:]
         cx0, cy0 = cur
         complete = all(locate(M, caplen + b) is not None for b in bs)
         top = locate(M, caplen)
@@ -624,6 +800,18 @@ def _ops(typed, max_ops):
     )
 
 
+_listener = st.fixed_dictionaries({
+    "callback": st.sampled_from(CALLBACK_KINDS),
+    "weak": st.lists(st.sampled_from(sorted(WEAK_TARGETS)), max_size=2),
+    "user_args": st.one_of(st.none(), st.lists(st.sampled_from(ARG_VALUES), max_size=2)),
+    "user_arg": st.one_of(st.none(), st.none(), st.sampled_from(ARG_VALUES)),
+    "mutate_after": st.booleans(),
+    "returns": st.sampled_from([None, None, True, False, 0, "x"]),
+})
+# besides the plain listener every case has, 0..3 more, connected in the other documented ways
+_listeners = st.lists(_listener, max_size=3)
+
+
 @st.composite
 def edit_cases(draw, max_ops):
     enc = draw(st.sampled_from(ENCODINGS))
@@ -650,6 +838,7 @@ def edit_cases(draw, max_ops):
         "mask": draw(st.sampled_from([None, None, None, "*"])),
         "pos": draw(st.one_of(st.none(), st.integers(0, 30))),
         "ops": ops,
+        "listeners": draw(_listeners),
     }
 
 
@@ -693,6 +882,7 @@ def numeric_cases(draw, max_ops):
         case["default"] = draw(st.one_of(*choices))
     typed = NUM_KEYS_ASCII + (NUM_KEYS_UPPER if enc == "utf-8" else [])
     case["ops"] = draw(_ops(typed, max_ops))
+    case["listeners"] = draw(_listeners)
     return case
 
 
@@ -704,6 +894,23 @@ def _edit_nontrivial(case):
     vertical = any(o[0] == "k" and o[1] in ("up", "down") for o in case["ops"])
     edits = any(o[0] == "k" and (len(o[1]) == 1 or o[1] in ("backspace", "delete")) for o in case["ops"])
     return (special or multirow) and (vertical or (special and edits))
+
+
+def _listener_classes(case):
+    out = []
+    for d in case.get("listeners") or []:
+        out.append(f"listener:{d['callback']}")
+        if d["weak"]:
+            falsy = [n for n in d["weak"] if n.endswith("-empty") or n.startswith(("len0", "bool-false"))]
+            out.append("listener:weak_args alive but falsy" if falsy else "listener:weak_args")
+        if d["user_args"] is not None:
+            out.append("listener:user_args" + (" empty" if not d["user_args"] else
+                                               " with a falsy value" if not all(d["user_args"]) else ""))
+            if d.get("mutate_after"):
+                out.append("listener:user_args list changed after connecting")
+        if d["user_arg"] is not None:
+            out.append("listener:deprecated user_arg" + ("" if d["user_arg"] else " falsy"))
+    return sorted(set(out))
 
 
 def _edit_classes(case):
@@ -722,7 +929,7 @@ def _edit_classes(case):
         out.append("edit:click")
     if any(o[0] == "k" and o[1] in ("up", "down") for o in case["ops"]):
         out.append("edit:vertical")
-    return out
+    return out + _listener_classes(case)
 
 
 def _num_nontrivial(case):
@@ -740,7 +947,7 @@ def _num_classes(case):
         out.append("numeric:FloatEdit options in the deprecated spelling")
     if any(o[0] == "k" and o[1] in NUM_KEYS_UPPER for o in case["ops"]):
         out.append("numeric:upper()-lands-in-alphabet key")
-    return out
+    return out + _listener_classes(case)
 
 
 def shard(ctx):
